@@ -73,7 +73,8 @@ def confirm(rec, families):
 
 
 def run(pid: str, tier: str, families=None, extra_requests=None, worker=None, variants=None,
-        confirm_fn=None, validate=True, level="model_checking", functions=None, extra_assumptions=()):
+        confirm_fn=None, validate=True, level="model_checking", functions=None, extra_assumptions=(),
+        task_filter=None, extra=None):
     """Generic kernel sweep.  ``variants``: list of dicts merged into every task (one task per
     variant), e.g. the two C05 programs."""
     t0 = time.time()
@@ -94,6 +95,8 @@ def run(pid: str, tier: str, families=None, extra_requests=None, worker=None, va
     tasks = ksweep.build_tasks(reqs, D, N, families, dim_mode, max_paths, tb)
     if variants:
         tasks = [{**t, **v} for t in tasks for v in variants]
+    if task_filter:
+        tasks = task_filter(tasks)
     results = ksweep.run_tasks(tasks, worker=worker)
     agg = {"paths": 0, "decisions": 0, "queries": 0, "solver_s": 0.0, "obligations": 0,
            "loop_iters": 0}
@@ -184,6 +187,9 @@ def run(pid: str, tier: str, families=None, extra_requests=None, worker=None, va
         "violations_found_by_solver": n_viol,
         "known_findings_met": [k["id"] for k in rep.known],
     }
+    if extra is not None:
+        coverage.update(extra(rep, coverage))
+        wall = time.time() - t0
     common.write_evidence(pid, tier, level, coverage, ASSUMPTIONS + list(extra_assumptions), wall,
                           len(rep.violations))
     print(f"{pid} {tier}: requests={len(reqs)} generated={len(generated)} refused={len(refused)} "
